@@ -416,6 +416,54 @@ fn embedded_frames(d: &[u8], level: Compression, frame: &[u8]) -> Result<(), Str
             return Err(format!("a compressed block read back as field of {} record: siblings {a:#x} {t:#x} {after:#x}, {} content bytes", if evolved { "an evolved" } else { "a version-0" }, z.0.len()));
         }
     }
+    // a frame that claims more compressed bytes than its chunk holds (the chunk ends where the honest frame ends):
+    // the block is the only content of chunk 1, which is the last chunk of the record or is followed by chunk 2, and
+    // other data follows the record. The reader has to stop at the end of the chunk: Err, never the neighbour's bytes.
+    let (mut p, _ulen) = (0usize, ());
+    let _ = model_var(frame, &mut p);
+    let clen_at = p;
+    if let Some(clen) = model_var(frame, &mut p) {
+        let clen_len = p - clen_at;
+        for more in [1u32, 2, 5] {
+            let mut lie = Vec::new();
+            vmodel::refcodec::var_u32(clen + more, &mut lie);
+            if lie.len() != clen_len {
+                continue;
+            }
+            let mut bad = frame.to_vec();
+            bad[clen_at..clen_at + clen_len].copy_from_slice(&lie);
+            for last in [true, false] {
+                let meta = if last { AdtMetadata::new(vec![Evolution::InitialVersion, Evolution::FieldAdded { name: "z".into() }]) } else { AdtMetadata::new(vec![Evolution::InitialVersion, Evolution::FieldAdded { name: "z".into() }, Evolution::FieldAdded { name: "t".into() }]) };
+                let mut bytes = vec![0x5A, 0xA5, if last { 1u8 } else { 2 }];
+                vmodel::refcodec::var_i32(2, &mut bytes);
+                vmodel::refcodec::var_i32(bad.len() as i32, &mut bytes);
+                if !last {
+                    vmodel::refcodec::var_i32(6, &mut bytes);
+                }
+                bytes.extend_from_slice(&[0x12, 0x34]);
+                bytes.extend_from_slice(&bad);
+                if !last {
+                    bytes.extend_from_slice(&[0x77; 6]);
+                }
+                bytes.extend_from_slice(&[0xEE; 8]);
+                let got = crate::run::guarded(|| {
+                    let mut dc = DeserializationContext::new(&bytes);
+                    dc.read_u8()?;
+                    dc.read_u8()?;
+                    let stored = dc.read_u8()?;
+                    let mut de = AdtDeserializer::new(&meta, &mut dc, stored)?;
+                    let _a: u16 = de.read_field("a", None)?;
+                    let z: ZOwned = de.read_field("z", None)?;
+                    Ok::<_, desert::Error>(z.0.len())
+                });
+                match got {
+                    Ok(Err(_)) => {}
+                    Ok(Ok(n)) => return Err(format!("a frame whose header claims {more} compressed byte(s) more than its chunk holds ({}) was accepted ({n} content bytes): the reader took bytes of {}", if last { "last chunk of the record" } else { "a chunk in the middle" }, if last { "whatever follows the record" } else { "the next chunk" })),
+                    Err(p) => return Err(format!("a frame whose header claims {more} compressed byte(s) more than its chunk holds ({}) makes the reader panic: {p}", if last { "last chunk of the record" } else { "a chunk in the middle" })),
+                }
+            }
+        }
+    }
     Ok(())
 }
 
